@@ -66,6 +66,17 @@ LOC_QUERY = ("value [[address (low, high) value], length, [elem [offset value, l
 
 def check_location(path, die_off, at_num, elements, bad, desc):
     """elements: [(low, high, ops)] expected in stored order.  Returns number of operations checked."""
+    try:
+        return _check_location(path, die_off, at_num, elements, bad, desc)
+    except (TypeError, ValueError, KeyError, IndexError) as ex:
+        # the value is not made of location list elements at all (a sequence of bytes, a number, ...)
+        r = zw.run_cases([zw.enc("entry ?(offset == %d) attribute ?(label value == %d) [value]" % (die_off, at_num), dw=path, t=60)])[0]
+        bad("the location %s does not come out as location list elements: `value` gives %s" % (desc, json.dumps([zw.canon_stack(x) for x in r.results])[:200]),
+            {"file": path, "die": die_off, "attribute": at_num, "what": desc})
+        return 0
+
+
+def _check_location(path, die_off, at_num, elements, bad, desc):
     r = zw.run_cases([zw.enc("entry ?(offset == %d) attribute ?(label value == %d) %s" % (die_off, at_num, LOC_QUERY), dw=path, t=60)])[0]
     case = {"file": path, "die": die_off, "attribute": at_num, "what": desc}
     if not r.ok() or r.d.get("hard"):
